@@ -136,6 +136,88 @@ def pick_cross_ins(rng, pv, texts):
     return None
 
 
+def pick_cross_ins_any(rng, pv, texts):
+    """a target quoted from the accepted view that crosses the boundary of a pending insertion: it reaches into the
+    insertion from the text before it ('in'), out of it into the text behind it ('out'), or covers it together with
+    text on both sides ('over'); -> dict like pick_target (+ shape) or None"""
+    acc = pv.acc
+    segs = []
+    i = 0
+    while i < len(acc):
+        if acc[i]["state"] == "ins":
+            j = i
+            while j < len(acc) and acc[j]["state"] == "ins" and acc[j]["rid"] == acc[i]["rid"]:
+                j += 1
+            segs.append((i, j))
+            i = j
+        else:
+            i += 1
+    rng.shuffle(segs)
+
+    def plain_left(i0, n):
+        a = i0
+        while a > 0 and i0 - a < n and acc[a - 1]["state"] == "plain" and acc[a - 1]["c"] != "\n":
+            a -= 1
+        while a < i0 and acc[a]["c"] == " ":
+            a += 1
+        return a
+
+    def plain_right(i1, n):
+        b = i1
+        while b < len(acc) and b - i1 < n and acc[b]["state"] == "plain" and acc[b]["c"] != "\n":
+            b += 1
+        while b > i1 and acc[b - 1]["c"] == " ":
+            b -= 1
+        return b
+
+    for i0, i1 in segs:
+        if i1 - i0 < 2:
+            continue
+        shape = rng.choice(["in", "out", "over", "over"])
+        if shape == "in":
+            a, b = plain_left(i0, rng.randint(2, 8)), rng.randint(i0 + 1, i1 - 1)
+            if a == i0:
+                continue
+        elif shape == "out":
+            a, b = rng.randint(i0 + 1, i1 - 1), plain_right(i1, rng.randint(2, 8))
+            if b == i1:
+                continue
+        else:
+            a, b = plain_left(i0, rng.randint(2, 8)), plain_right(i1, rng.randint(2, 8))
+            if a == i0 or b == i1:
+                continue
+        seg = acc[a:b]
+        if any(c["c"] == "\n" for c in seg) or len({tuple(c["comments"]) for c in seg}) > 1 or any(c["marked"] for c in seg):
+            continue
+        target = "".join(c["c"] for c in seg)
+        if not target.strip() or target != target.strip():
+            continue
+        if count_occ(texts["clean"], target) != 1 or count_occ(texts["raw"], target) > 1:
+            continue
+        if count_occ(ws_norm(texts["clean"]), ws_norm(target)) != 1 or count_occ(fuzzy_norm(texts["clean"]), fuzzy_norm(target)) != 1:
+            continue
+        i_first, i_last = pv.chars.index(seg[0]), pv.chars.index(seg[-1])
+        if any(c["state"] == "del" for c in pv.chars[i_first:i_last + 1]):
+            continue
+        return {"si": pv.si, "pi": pv.pi, "a": a, "b": b, "target": target, "in_raw": count_occ(texts["raw"], target) == 1,
+                "over_del": False, "state": "cross_ins", "rid": acc[i0]["rid"], "at_para_start": a == 0,
+                "at_para_end": b == len(acc), "crosses_runs": True, "after_tab_in_run": False, "has_tab": False, "shape": shape}
+    return None
+
+
+def gen_cross_ins_any(rng, doc, texts):
+    """one replace / delete / shared-context edit on such a target (list with 0 or 1 edit)"""
+    pvs = [ParaView(si, pi, p) for pi, (si, p) in enumerate(sem.all_paragraphs(doc))]
+    rng.shuffle(pvs)
+    word = WordSource(rng)
+    for pv in pvs[:8]:
+        t = pick_cross_ins_any(rng, pv, texts)
+        if t:
+            kind = rng.choice(["replace", "replace", "delete", "shared"])
+            return [{**t, "kind": kind, "new": new_text_for(rng, t["target"], kind, word), "comment": None, "locatable": True}]
+    return []
+
+
 def gen_cross_ins_edit(rng, doc, texts):
     """one edit that appends to / changes the tail of such a target (list with 0 or 1 edit)"""
     pvs = [ParaView(si, pi, p) for pi, (si, p) in enumerate(sem.all_paragraphs(doc))]
